@@ -205,3 +205,5 @@ PROPS['C20'] = dict(
                   'CPython: single attribute / list-item stores are atomic'],
     assumptions=['cursors are not shared between threads (DB-API level 2)'],
 )
+PROPS['C05']['min_t1'] = 4
+PROPS['C15']['min_t1'] = 4
